@@ -1,24 +1,53 @@
 """C09 - inferred types agree with Gleam's typing on well-typed programs.
-Spec: Typing.tla - a type-directed generator: every expression is derived against a chosen monomorphic goal type
-(Gleam's typing rules read goal-first), so the type of every let-bound variable, pattern variable, parameter and
-function is known by construction; signatures of the generated functions are chosen up front so calls refer forwards,
-backwards and recursively; unannotated results and (pinned) unannotated parameters must be inferred.
-GEN: programs (BFS over all goal types with a small budget + simulation of three-function modules) are rendered with
-the functions in a seeded order and the prelude before or after them; hover on every binder and function name is
-compared with the specification's type (whitespace-normalised, type variables renamed by first occurrence)."""
+Spec: Typing.tla - a type-directed generator: every expression is derived against a chosen goal type (Gleam's typing
+rules read goal-first), so the type of every let-bound variable, pattern variable, parameter and function is known by
+construction.  Signatures of the generated functions are chosen up front (up to four parameters: annotated with a type
+or a type variable, unannotated and unconstrained = generic in its own variable, unannotated and pinned by one use as the
+operand of an operator; trailing parameters labelled; results over the parameters' variables), so calls refer forwards,
+backwards and recursively, and every call to an earlier, generalised function instantiates its variables afresh.
+Every binary and prefix operator of Gleam is an expression rule at its result type and a pin (operand left and right).
+GEN: programs from
+  * Typing_b  - exhaustive, "every rule once": one function per result type x every typing rule once (budget 1), every
+    pattern rule, every operator as a pin on either side, every rule once inside a generic function;
+  * Typing_bs - exhaustive, "every signature once": every parameter list up to length 4 over a kind alphabet, every result that is a variable / a pair of variables / a list, with a caller that instantiates the
+    function at two different assignments; labelled parameter lists called with the labels in every order;
+  * Typing_sim - simulation: modules of three functions, budget 6 each;
+  * Typing_un_<p> - the same with a production re-enabled that triggers a recorded finding (run: unmasked:<p>)
+are rendered with the functions in a seeded order and the prelude before or after them; hover on every binder, every
+generated function and every function of the prelude is compared with the specification's type (whitespace-normalised,
+type variables renamed by first occurrence, so fn(a, b) and fn(a, a) stay different)."""
 import json, os
 import vlib
 
-UNMASK = ["lambda_annot", "call_gen_rec"]
+# production group -> (cfg, exhaustive?)
+UNMASK = {"lambda_annot": ("Typing_un_lambda_annot.cfg", False), "call_gen_rec": ("Typing_un_call_gen_rec.cfg", False),
+          "bool_op": ("Typing_un_bool_op.cfg", False), "prefix_op": ("Typing_un_prefix_op.cfg", False),
+          "call_rec_labels": ("Typing_un_call_rec_labels.cfg", True)}
 
 
-def run_ty(out, cases, seed, name, label, prop="C09"):
-    d = vlib.workdir("c09-" + name)
-    path = os.path.join(d, "programs.ndjson")
+def write_cases(path, results):
+    """stream the CASE lines of TLC runs into an ndjson file (never all in memory); returns the number of programs"""
+    n = 0
     with open(path, "w") as f:
-        for c in cases:
-            f.write(json.dumps(c) + "\n")
-    p = vlib.run_bin("typecheck", ["--threads", str(vlib.NCPU)], stdin_path=path, env={"VERIF_SEED": str(seed)}, timeout=7200)
+        for r in results:
+            for body in r.raw_cases():
+                f.write(body + "\n")
+                n += 1
+    return n
+
+
+def prelude_of(r, d):
+    """PreludeSigs as printed by the specification's ASSUME -> file for typecheck --prelude"""
+    for body in r.raw_cases("PRELUDE"):
+        path = os.path.join(d, "prelude.json")
+        open(path, "w").write(body)
+        return path
+    return None
+
+
+def run_file(out, path, seed, label, prop="C09", prelude=None):
+    args = ["--threads", str(vlib.NCPU)] + (["--prelude", prelude] if prelude else [])
+    p = vlib.run_bin("typecheck", args, stdin_path=path, env={"VERIF_SEED": str(seed)}, timeout=7200)
     if p.returncode != 0:
         raise vlib.ToolError("typecheck crashed: " + p.stderr.decode()[-2000:])
     recs = vlib.json_lines(p.stdout)
@@ -30,45 +59,82 @@ def run_ty(out, cases, seed, name, label, prop="C09"):
     return [r for r in recs if r["kind"] == "summary"][0]
 
 
+def run_ty(out, cases, seed, name, label, prop="C09", prelude=None):
+    """cases: decoded programs (dicts) or their JSON texts"""
+    d = vlib.workdir("c09-" + name)
+    path = os.path.join(d, "programs.ndjson")
+    with open(path, "w") as f:
+        for c in cases:
+            f.write((c if isinstance(c, str) else json.dumps(c)) + "\n")
+    return run_file(out, path, seed, label, prop, prelude)
+
+
+def generate(tier, seed, prefix, unmasked=True):
+    """all TLC runs of the tier, concurrently; returns (main results, {group: result})"""
+    nsim, per, per_un = (4, 100, 100) if tier == "quick" else (12, 2500, 1500)     # behaviours of Rounds = 6 programs each
+    jobs = [dict(module="Typing", cfg="Typing_b.cfg", workers=6, timeout=3000, heap="8g", coverage=True, name=prefix + "-b"),
+            dict(module="Typing", cfg="Typing_bs.cfg", workers=2, timeout=3000, heap="4g", name=prefix + "-bs")]
+    jobs += [dict(module="Typing", cfg="Typing_sim.cfg", workers=1, simulate=per, depth=4000, seed=seed * 1000 + i, timeout=3000, name=f"{prefix}-sim-{i}")
+             for i in range(nsim)]
+    groups = []
+    if unmasked:
+        for i, (g, (cfg, exhaustive)) in enumerate(UNMASK.items()):
+            groups.append(g)
+            if exhaustive:
+                jobs.append(dict(module="Typing", cfg=cfg, workers=2, timeout=3000, name=f"{prefix}-un-{g}"))
+            else:
+                jobs.append(dict(module="Typing", cfg=cfg, workers=1, simulate=per_un, depth=4000, seed=seed * 1000 + 900 + i, timeout=3000, name=f"{prefix}-un-{g}"))
+    res = vlib.tlc_many(jobs, max_parallel=12)
+    for j, r in zip(jobs, res):
+        vlib.require_ok(r, j["name"])
+    nmain = 2 + nsim
+    return jobs, res[:nmain], dict(zip(groups, res[nmain:]))
+
+
 def run(out, tier, seed):
-    r = vlib.tlc("Typing", "Typing_b.cfg", workers=8, timeout=3000, heap="8g", coverage=True)
-    vlib.require_ok(r, "Typing BFS")
-    out.add_tlc(r, "MC Closed/BindersTyped + GEN (BFS, one function, every goal type)")
-    cases = list(r.cases())
-    nsim, per = (4, 120) if tier == "quick" else (12, 4000)
-    jobs = [dict(module="Typing", cfg="Typing_sim.cfg", workers=1, simulate=per, depth=4000, seed=seed * 1000 + i, timeout=3000, name=f"ty-sim-{i}")
-            for i in range(nsim)]
-    jobs += [dict(module="Typing", cfg=f"Typing_un_{p}.cfg", workers=1, simulate=(60 if tier == "quick" else 1500), depth=4000,
-                  seed=seed * 1000 + 900 + i, timeout=3000, name=f"ty-un-{p}") for i, p in enumerate(UNMASK)]
-    extra = {}
-    for j, r2 in zip(jobs, vlib.tlc_many(jobs, max_parallel=6)):
-        vlib.require_ok(r2, j["name"])
-        out.add_tlc(r2, "GEN simulation " + j["cfg"])
-        if j["cfg"] == "Typing_sim.cfg":
-            cases += list(r2.cases())
-        else:
-            extra[j["cfg"][len("Typing_un_"):-4]] = list(r2.cases())
-    s = run_ty(out, cases, seed, "main", "main")
-    for p, cs in extra.items():
-        if not cs:
-            raise vlib.ToolError("no programs for unmasked production " + p)
-        s2 = run_ty(out, cs, seed, p, "unmasked:" + p)
+    jobs, main, extra = generate(tier, seed, "ty")
+    for j, r in zip(jobs, main + list(extra.values())):
+        out.add_tlc(r, ("MC Closed/BindersTyped/BindersScoped/SigsWellFormed + GEN " if "simulate" not in j else "GEN simulation ") + j["cfg"])
+    d = vlib.workdir("c09-main")
+    prelude = prelude_of(main[0], d)
+    if prelude is None:
+        raise vlib.ToolError("the specification did not print PreludeSigs")
+    path = os.path.join(d, "programs.ndjson")
+    write_cases(path, main)
+    s = run_file(out, path, seed, "main", prelude=prelude)
+    for g, r in extra.items():
+        p2 = os.path.join(d, f"un-{g}.ndjson")
+        if write_cases(p2, [r]) == 0:
+            raise vlib.ToolError("no programs for unmasked production " + g)
+        s2 = run_file(out, p2, seed, "unmasked:" + g, prelude=prelude)
         out.cov["evaluations"] += s2["hovers"]
     out.cov["traces_validated_against_impl"] += s["programs"]
     out.cov["evaluations"] += s["hovers"]
     out.cov["distinct_nontrivial"] += s["multi_function_programs"]
     out.cov["samples"] += s["samples"]
     out.cov["exhaustive"] = False
-    out.cov["rule"] = ("BFS: one function per goal type of a representative set x every typing rule once (budget 1); simulation: modules of "
-                       "three functions with signatures chosen up front (annotated and pinned-unannotated parameters, inferred D0 results), "
-                       "budget 8, covering literals, operators, tuples/indexing, lists/spreads, Result via generic helpers, generic Box, "
-                       "field access, labelled arguments in any order, lambdas, captures, pipelines, case with nested patterns, as/prefix "
-                       "patterns, generic id/apply/map instantiation, calls between functions in seeded definition order; "
-                       "distinct_nontrivial = programs with more than one generated function")
+    out.cov["rule"] = ("exhaustive 'rules': one function per result type of a representative set x every typing rule once (budget 1) - literals, "
+                       "every binary and prefix operator, tuples/indexing, lists/spreads, Result via generic helpers, generic Box, field access, "
+                       "labelled constructor arguments in any order, lambdas (parameter pinned by every operator on either side), captures, "
+                       "pipelines, case over every pattern rule, let over every value type; every operator as the pin of an unannotated "
+                       "parameter on either side; every rule once inside a generic function (rigid variables). "
+                       "Exhaustive 'sigs': every parameter list up to length 4 over {Int, List(Int), a, b annotated; "
+                       "unconstrained; pinned} x results {variable, pair of two variables, list}, each with a caller instantiating it at two "
+                       "assignments that give distinct variables distinct types; parameter lists over {Int, String, a} with the last 1..n "
+                       "labelled, called positionally and with the labels in every order. "
+                       "Simulation: modules of three functions (up to four parameters of every kind, labelled suffixes, generic results over "
+                       "the parameters' variables, annotated or inferred), budget 6 per function, calls to earlier functions instantiated per call "
+                       "site (call_gen_back, call_gen_labels, let_call), definition order seeded; hover on every binder, generated function and "
+                       "prelude function. distinct_nontrivial = programs with more than one generated function")
     out.assumptions += ["Typing.tla is a transcription of Gleam's typing rules for the supported core (no Gleam compiler to cross-check)",
-                        "hover markup's first code block is the displayed type"]
+                        "hover markup's first code block is the displayed type",
+                        "type variables are compared after renaming by first occurrence within one displayed type"]
 
 
 def replay(out, path):
     d = json.load(open(path))
-    run_ty(out, [d["detail"]["case"]], 1, "replay", d["features"].get("run", "main"))
+    prelude = None
+    if d["detail"].get("prelude"):
+        prelude = os.path.join(vlib.workdir("c09-replay-prelude"), "prelude.json")
+        json.dump(d["detail"]["prelude"], open(prelude, "w"))
+    run_ty(out, [d["detail"]["case"]], 1, "replay", d["features"].get("run", "main"), prelude=prelude)
